@@ -16,6 +16,12 @@ The compiled kernels cannot be observed, so:
     only) runs of more than 1000 steps over 13-14 forcing files.  In-process the kernels' Python bodies are run once per
     DISTINCT argument row of a call (the particles are copies of 16 release positions) and the verdict is attributed to
     every particle of the row through the inverse index; under NUMBA_BOUNDSCHECK=1 the compiled kernels see all particles.
+  * option-combination cases (both tiers, always the same, right after the scale cases; c17_opts.py): 21 small simulations
+    forming a pairwise-covering table over time reversal, EF/RK2/RK4, subgrid, horizontal / vertical diffusion, forcing in one /
+    three files with time interpolation, f8 / f4 / packed forcing, release once / continuous / at several times, entry point
+    (v2 dictionary, v2 YAML, v2 TOML, v1 YAML through ladim.main.main), float64 / float32 / warm-started state, a killing IBM,
+    extra forcing, flow direction and speed (in a reversed run the file stores the negated flow); judged in-process on the
+    recording arrays and again with the compiled kernels under NUMBA_BOUNDSCHECK=1.
 Oracle = the property text: an index < 0 or >= extent (or numpy's IndexError) is a read outside the array.
 """
 from __future__ import annotations
@@ -31,6 +37,7 @@ import numpy as np
 
 import romsfiles as rf
 import c17_scale as scale
+import c17_opts as opts
 from coqbridge import fl
 
 PROP = "C17"
@@ -42,7 +49,10 @@ RULE = ("kernel cases: trilinear / sample3DUV (both methods) / nearest / z2s Pyt
         "clip box incl. 0.01 and imax-1.01, integers and half-integers, depths above/in/below the level range, negative "
         "controls outside the box; sim cases: whole simulations with EF/RK2/RK4, flow of 0.3-2.6 cells per step towards "
         "each boundary, sub-rectangles with i0 != j0, diffusion; scale cases: the same with 1000-130000 particles, a state that "
-        "grows and shrinks every step, 700-wide / 700-tall grids with 35 levels, 1100-1300 steps over 13-14 forcing files. Non-trivial = distinct (kind, seed) whose reads touch "
+        "grows and shrinks every step, 700-wide / 700-tall grids with 35 levels, 1100-1300 steps over 13-14 forcing files; "
+        "option-combination cases: 21 fixed simulations covering every legal pair of {time reversal, EF/RK2/RK4, subgrid, diffusion, vertical "
+        "diffusion, 1/3 forcing files, f8/f4/packed forcing, release once/continuous/timed, v2 dict/v2 YAML/v2 TOML/v1 YAML entry, "
+        "float64/float32/warm-started state, killing IBM, extra forcing, 4 flow directions, 3 speeds}. Non-trivial = distinct (kind, seed) whose reads touch "
         "the first or last row/column of an array, or a simulation in which a stage position was clipped.")
 TRUSTED = ["Coq 8.16.1 kernel + vm_compute", "hand-written model coq/Model/Interp.v tied by this correspondence",
            "the kernels' .py_func bodies are the source numba compiles (numba itself trusted)",
@@ -130,6 +140,9 @@ def gen_cases(ctx):
     # the scale family: fixed descriptions, always first
     scale_both, scale_bc = scale.scale_descs()
     out.extend(scale_both)
+    # the option-combination family: fixed descriptions (a pairwise-covering table), always right after the scale family
+    opt_descs = opts.opts_descs()
+    out.extend(opt_descs)
     for _ in range(nt):
         out.append({"k": "tri", "seed": rng.randrange(10**9)})
     for n in range(nuv):
@@ -155,10 +168,10 @@ def gen_cases(ctx):
         out.append({"k": "sim", "seed": rng.randrange(10**9), "adv": ["RK4", "RK2", "RK4", "EF"][n % 4], "dir": n % 8,
                     "speed": [1, 2][(n // 8) % 2] if ctx.quick is False else [1, 2][(n // 4) % 2], "diffusion": False, "exact": True})
     # the same scenarios with the COMPILED kernels under NUMBA_BOUNDSCHECK=1 (subprocess; a few seconds per batch)
-    batch = [c for c in out if c["k"] == "sim" and not c.get("scale")]
+    batch = [c for c in out if c["k"] == "sim" and not c.get("scale") and not c.get("opts")]
     for b in range(0, len(batch), 40):
-        # the scale scenarios (all particles through the compiled kernels) ride in the first batch
-        out.append({"k": "boundscheck", "scenarios": (scale_both + scale_bc if b == 0 else []) + batch[b:b + 40]})
+        # the scale scenarios (all particles through the compiled kernels) and the option combinations ride in the first batch
+        out.append({"k": "boundscheck", "scenarios": (scale_both + scale_bc + opt_descs if b == 0 else []) + batch[b:b + 40]})
     return out
 
 
@@ -358,6 +371,8 @@ def write_scenario(d, desc):
     """files + configuration of one simulation, all derived from the description"""
     if desc.get("scale"):
         return scale.write_scale_scenario(d, desc)
+    if desc.get("opts"):      # for these `conf` is a run plan (one or two legs, dictionary or configuration file), see c17_opts
+        return opts.write_opts_scenario(d, desc)
     rng = np.random.default_rng(desc["seed"])
     imax0, jmax0, N = int(rng.integers(12, 17)), int(rng.integers(10, 15)), int(rng.integers(2, 5))
     dt, dx, nsteps = 600, 1000.0, 4
@@ -432,6 +447,9 @@ def run_scenario(conf, desc):
     """the loop of ladim.main on the configuration; with "f32" the state's positions are cast to float32 after
     every step (a warm start from an output file with f4 positions assigns such arrays)"""
     import run_ladim as rl
+
+    if desc.get("opts"):      # entry point (Model on a dictionary / ladim.main.main on a v2 YAML, v2 TOML or v1 YAML file) chosen by the case
+        return opts.run_opts(conf, desc)
 
     def cast(model, k):
         st = model.state
@@ -533,7 +551,7 @@ def eval_sim(desc, ctx):
             pass
     where = (f"advection={desc['adv']} flow {desc['speed']} cells/step direction {DIRS[desc['dir']]} subgrid={info['sub']} grid={info['shape']}"
              + (" float32 state positions" if desc.get("f32") else "") + (" integer positions" if desc.get("exact") else "")
-             + (scale.describe(desc) if big else ""))
+             + (scale.describe(desc) if big else "") + (opts.describe(desc) if desc.get("opts") else ""))
     oracle = None
     badclip = badclips[0] if badclips else None
     bad = [c for c in calls if not c[6]]
@@ -572,7 +590,7 @@ def eval_sim(desc, ctx):
     most = max([c[9] for c in calls], default=0)
     return {"ints": ints or None, "oracle": oracle, "nontrivial": ("sim", desc["seed"]) if clipped else None,
             "kind": f"sim-{desc['adv']}" + ("-diffusion" if desc.get("diffusion") else "") + ("-float32" if desc.get("f32") else "")
-                    + ("-integer" if desc.get("exact") else "") + ("-scale" if big else ""),
+                    + ("-integer" if desc.get("exact") else "") + ("-scale" if big else "") + ("-options" if desc.get("opts") else ""),
             "observed": {"kernel_calls": len(calls), "outside": len(bad), "clip_calls": len(clips), "crash": crash, "subgrid": info["sub"], "clipped": clipped,
                          **({"particles_in_largest_call": most, "particles_accounted_for": int(sum(c[7] for c in calls))} if big else {})}}
 
@@ -626,7 +644,7 @@ def eval_boundscheck(desc, ctx):
     if bad:
         dsc = [s for s in desc["scenarios"] if s["seed"] == bad[0]["seed"]][0]
         oracle = (f"end-to-end run with NUMBA_BOUNDSCHECK=1: {bad[0]['result']} (advection={dsc['adv']} flow {dsc['speed']} cells/step "
-                  f"direction {DIRS[dsc['dir']]} subgrid={bad[0].get('sub')} seed={dsc['seed']}{scale.describe(dsc) if dsc.get('scale') else ''})")
+                  f"direction {DIRS[dsc['dir']]} subgrid={bad[0].get('sub')} seed={dsc['seed']}{scale.describe(dsc) if dsc.get('scale') else ''}{opts.describe(dsc) if dsc.get('opts') else ''})")
     return {"ints": None, "oracle": oracle, "nontrivial": ("boundscheck", len(res["runs"])), "kind": "boundscheck",
             "observed": {"runs": len(res["runs"]), "failed": len(bad), "boundscheck": res["boundscheck"]}}
 
